@@ -9,12 +9,14 @@ REQUIRES = ["Gen.Handlers", "Model.Run", "Spec.Run", "Spec.C02"]
 PROOF_FILES = ["Proof/RunCore.v", "Proof/RunExtra.v", "Proof/C02.v"]
 MANIFEST = {
     "text": "Coq theorems over all finite test programs (cleanups registered in setUp, test, tearDown and inside "
-            "other cleanups to any depth, patch() of existing and missing attributes, useFixture with failing "
+            "other cleanups to any depth, patch() of attributes of an instance, its class and the base class - held "
+            "by the target, inherited, missing, served by a property or an inherited slot -, useFixture with failing "
             "setUp/cleanUp, any exception incl. KeyboardInterrupt/SystemExit in any body) about a hand-written Gallina "
             "model of RunTest._run_core/_run_cleanups, TestCase._reset/patch/useFixture and MonkeyPatcher: the "
             "execution log is setUp, (test, tearDown iff setUp returned), then the stack discipline of DESIGN A.1; "
-            "every registered cleanup runs exactly once; no cleanup is left; every patched attribute is restored; a "
-            "second run() of the instance repeats log and outcome. Proved by induction on the fuel of the literal "
+            "every registered cleanup runs exactly once; no cleanup is left; the namespace of every patched object "
+            "is what it was (no value changed, no shadow of an inherited value left behind); a second run() of the "
+            "instance repeats log and outcome. Proved by induction on the fuel of the literal "
             "pop-run-repeat machine with the pending stack in the invariant. Tied to /repo on every run by "
             "differential execution of model and implementation inside coqc; the oracle is the executable statement "
             "spec_okb, proved to imply the readable Spec.",
@@ -30,16 +32,24 @@ RULE = ("programs as in C01 with cleanups registered in setUp (before/after the 
         "cleanups (depth <= 3), patches of existing (values incl. None) and missing attributes of a scratch object, fixtures (new and old "
         "style, failing set-up, failing cleanups), each run twice on one instance; exhaustive: every assignment of 10 "
         "behaviours to setUp/test/tearDown/cleanup over 4 registration sites; non-trivial = a nested cleanup, or a "
-        "patch/fixture together with a raising statement, or at least 2 raising statements; distinct = distinct JSON; plus fixtures one of whose details cannot be evaluated when it is gathered (set-up ok / failing old and new style), @unittest.expectedFailure tests ending in every behaviour, force_failure set on the failed-setUp path, and - sampled outside the Coq model - an addOnException handler that raises while the exception of the test method / tearDown is processed")
+        "patch/fixture together with a raising statement, or at least 2 raising statements; distinct = distinct JSON; patch "
+        "targets: attributes of an instance, of its class and of the base class (own, inherited, missing), attributes of the "
+        "instance served by a property or an inherited slot, each present/absent before, alone, twice, and in pairs that share "
+        "a name along the lookup chain; plus fixtures one of whose details cannot be evaluated when it is gathered (set-up ok / failing old and new style), @unittest.expectedFailure tests ending in every behaviour, force_failure set on the failed-setUp path, and - sampled outside the Coq model - an addOnException handler that raises while the exception of the test method / tearDown is processed")
 TRUSTED = ["fixtures.Fixture setUp/cleanUp (fixtures 4.3.2) is modelled, not verified",
-           "the scratch object's __setattr__/__delattr__ log is the observation device for patch undo actions"]
+           "the __setattr__/__delattr__ log of the patched instance and of the metaclass of its classes is the observation "
+           "device for patch undo actions; vars() of each patched object (getattr for property / slot attributes) "
+           "before/after is the attribute observation"]
 ASSUMPTIONS = ["the result object does not raise; addOnException handlers do not raise (theorems); sampled beyond "
                "that: a handler raising while the exception of the test method or tearDown is processed",
-               "patched attributes are changed only through patch()",
+               "patched attributes are changed only through patch(); patch targets are the 15 keys of Model.Run.universe; "
+               "properties have setter and deleter; class-level targets are ordinary class attributes (patching a class "
+               "attribute that is itself a descriptor - staticmethod, property object - is not generated)",
+
                "fixtures raise single exceptions; new-style _setUp and fixture cleanups raise Exception-derived ones"]
 EXPLANATION = ("Theorems in coq/Props/C02.v over all programs; correspondence: two run() calls on one generated "
                "testtools.TestCase instance, compared with coq/Model/Run.v on the execution log, len(_cleanups), "
-               "vars() of the patched object and on whether the second run repeats the outcome of the first.")
+               "the namespaces of the patched objects and on whether the second run repeats the outcome of the first.")
 
 FEATS = frozenset(["patch", "fixture", "details", "onexc", "badfx"])
 
@@ -50,6 +60,7 @@ def _num(v):
 
 
 def drive(case):
+    # attrs: the namespaces of the patch targets before the test, key -> value (runprog: patch keys)
     attrs0 = [[a, None if v == 0 else v] for a, v in case["attrs"]]
     rs = R.run_program(case["prog"], "FExtended", attrs0=attrs0, runs=2)
     return [{"log": [[e[0], e[1], _num(e[2])] if e[0] == "set" else e for e in o["log"]], "left": o["leftover"],
@@ -129,7 +140,45 @@ def site_program(site, combo):
 
 def rand_attrs(rng):
     # value 0 = the attribute exists and is None
+    return R.rand_attrs(rng)
+
+
+def _glue_attrs(rng):
     return [[a, rng.randint(0, 3)] for a in (0, 1, 2) if rng.random() < 0.5]
+
+
+def target_programs():
+    """patch() of every kind of target - an attribute the instance holds itself, one it inherits from its class or
+    from the base class, a class attribute, an inherited class attribute patched on the subclass, a missing one, an
+    attribute served by a property, by an inherited slot (set / unset) - present or absent before, patched in setUp /
+    the test / a cleanup, once or twice, the test returning / failing / interrupted; and two targets that share a
+    name along the lookup chain, in both orders (base class first, then the inheriting class: the input of F25)"""
+    E = R.E
+    ends = [[], [["raise", E("Fail")]], [["raise", E("Kbd")]]]
+    singles = [(0, []), (0, [[0, 2]]), (0, [[0, 0]]), (3, [[4, 2]]), (3, [[5, 2]]), (3, [[3, 1], [4, 2]]), (6, [[7, 0]]),
+               (1, []), (1, [[1, 2]]), (1, [[2, 3]]), (1, [[0, 1], [2, 3]]), (2, []), (2, [[2, 2]]), (2, [[0, 1]]),
+               (30, [[30, 1]]), (30, [[30, 0]]), (30, []), (31, [[31, 2], [30, 1]]),
+               (33, [[33, 1]]), (33, []), (34, [[34, 0]])]
+    k = 0
+    for key, attrs in singles:
+        for end in ends:
+            k += 1
+            site = k % 3
+            acts = [["patch", key, 5]] + ([["patch", key, 6]] if k % 2 else [])
+            if site == 0:
+                p = R.mkprog(setup=acts, body=end)
+            elif site == 1:
+                p = R.mkprog(body=acts + end)
+            else:
+                p = R.mkprog(setup=[["cleanup", 10, acts + [["cleanup", 11, [["patch", key, 7]]]]]], body=end)
+            yield p, attrs, (key, len(attrs), site)
+    pairs = [(2, 1), (1, 2), (2, 0), (0, 2), (1, 0), (0, 1), (5, 3), (3, 5), (8, 7), (7, 8), (30, 0), (33, 30)]
+    for a, b in pairs:
+        for attrs in ([], [[max(a, b), 1]], [[a, 1], [b, 2]], [[min(a, b), 1]]):
+            for end in ends[:2]:
+                yield R.mkprog(body=[["patch", a, 5], ["patch", b, 6]] + end), attrs, ("pair", a, b)
+            yield R.mkprog(setup=[["patch", a, 5]], body=[["cleanup", 10, [["patch", b, 6]]]],
+                           teardown=[["patch", b, 7]]), attrs, ("pair-spread", a, b)
 
 
 def generate(rng, tier):
@@ -154,6 +203,9 @@ def generate(rng, tier):
         cases.append({"prog": p, "attrs": [[0, 1]]})
         cases.append({"prog": p, "attrs": []})
         cases.append({"prog": p, "attrs": [[0, 0], [1, 0]]})
+    # every kind of patch target
+    for p, attrs, _ in target_programs():
+        cases.append({"prog": p, "attrs": attrs})
     # force_failure set in setUp / in a cleanup, setUp ending in every behaviour (fix 889980a): both runs
     for k, (p, _) in enumerate(R.setup_force_programs()):
         cases.append({"prog": p, "attrs": []})
@@ -231,7 +283,7 @@ def extra_checks(tier, rng):
     n = 40 if tier == "quick" else 400
     samples = [[[[0, 1]], [[0, 5], [0, 6]], False], [[], [[1, 5], [1, 6], [1, 7]], False], [[[2, 0]], [[2, 5], [2, 6]], True]]
     for _ in range(n):
-        samples.append([rand_attrs(rng), [[rng.randint(0, 2), rng.randint(1, 4)] for _ in range(rng.randint(1, 4))],
+        samples.append([_glue_attrs(rng), [[rng.randint(0, 2), rng.randint(1, 4)] for _ in range(rng.randint(1, 4))],
                         rng.random() < 0.3])
     repo = os.environ.get("VERIF_REPO", "/repo")
     env = dict(os.environ, PYTHONPATH=repo, PYTHONHASHSEED="0", PYTHONDONTWRITEBYTECODE="1")
